@@ -671,10 +671,12 @@ def compare_out(want, got):
     return ('val', want['val'], got.get('val'))
   if want['op'] == 'Finalize' and got.get('sawParsed') is False:
     return ('hooks-see-config-as-parsed', True, False)
-  if (want['op'] == 'Bind' and want['status'] == 'RuntimeError' and not want.get('sel', True)
-      and got['status'] in ('RuntimeError', 'ValueError', 'KeyError')):
-    # locked *and* not resolvable: which of the two errors comes first depends on the API path (a block or a
-    # config-text statement resolves its target before bind_parameter looks at the lock); both reject
+  if (want['op'] == 'Bind' and want['status'] == 'RuntimeError' and got['status'] in ('RuntimeError', 'ValueError', 'KeyError')
+      and (not want.get('sel', True) or want.get('api') in ('text', 'block'))):
+    # locked *and* something else is wrong with the statement (unresolvable name, ambiguous constant in the value):
+    # which error comes first depends on the API path (config text parses the value and a block resolves its target
+    # before bind_parameter looks at the lock); the property only says that it raises and changes nothing, and the
+    # state comparison that follows checks that nothing changed
     return None
   if want['status'] != got['status']:
     return ('status', want['status'], got['status'] + (': ' + got.get('msg', '')[:200] if got.get('msg') else ''))
